@@ -451,6 +451,12 @@ func configs2(r *ev.Run) {
 				if rejected > 0 {
 					r.NontrivialKey(fmt.Sprintf("ms-filter/%s/%s/%d", sh.name, fname, procs))
 				}
+				// the searched form behind the same filter
+				r.Eval(1)
+				wantS := meshq.SegMultiset2(model2d.MarchingSquaresSearch(sh.s, delta, 2).SegmentSlice())
+				if got := meshq.SegMultiset2(model2d.MarchingSquaresSearchFilter(sh.s, f, delta, 2).SegmentSlice()); got != wantS {
+					r.Violation("config/MarchingSquaresSearchFilter/"+fname, "segment set differs from MarchingSquaresSearch", cfgCase{"MarchingSquaresSearchFilter", sh.name, procs, fname, delta, ""})
+				}
 			}
 			for _, k := range []float64{1, 2, 3} {
 				for _, extra := range []float64{0, 1e-3, 0.01} {
